@@ -477,32 +477,41 @@ class HelicityAmplitudeBuilder:
 
     def __register_amplitudes(self, transition_group: list[StateTransition]) -> None:
         transition_by_topology = group_by_topology(transition_group)
-        expression = sum(
-            self.__formulate_topology_amplitude(transitions)
-            for transitions in transition_by_topology.values()
-        )
-        first_transition = transition_group[0]
-        graph_group_label = generate_transition_label(first_transition)
-        component_name = f"I_{{{graph_group_label}}}"
-        self.__ingredients.components[component_name] = sp.Abs(expression) ** 2
+        # If identical particles carry different spin projections, the group contains
+        # several assignments of these projections to the state IDs. Each assignment
+        # is a different final state, with its own, incoherently summed amplitude.
+        amplitudes: dict[str, list[sp.Expr]] = collections.defaultdict(list)
+        for transitions in transition_by_topology.values():
+            topology_amplitudes = self.__formulate_topology_amplitude(transitions)
+            for graph_group_label, expression in topology_amplitudes.items():
+                amplitudes[graph_group_label].append(expression)
+        for graph_group_label, expressions in amplitudes.items():
+            component_name = f"I_{{{graph_group_label}}}"
+            self.__ingredients.components[component_name] = sp.Abs(sum(expressions)) ** 2
 
     def __formulate_topology_amplitude(
         self, transitions: Sequence[StateTransition]
-    ) -> sp.Expr:
-        sequential_expressions: list[sp.Expr] = []
+    ) -> dict[str, sp.Expr]:
+        amplitude_base = create_amplitude_symbol(transitions[0]).base
+        symbols: dict[str, sp.Indexed] = {}
+        sequential_expressions: dict[str, list[sp.Expr]] = collections.defaultdict(list)
         for transition in transitions:
             sequential_graphs = _perform_combinatorics(transition)
             for graph in sequential_graphs:
                 first_transition = _freeze(graph)
                 self.adapter.register_transition(first_transition)
                 expression = self.__formulate_sequential_decay(first_transition)
-                sequential_expressions.append(expression)
+                graph_group_label = generate_transition_label(first_transition)
+                helicities = create_amplitude_symbol(first_transition).indices
+                symbols[graph_group_label] = amplitude_base[helicities]
+                sequential_expressions[graph_group_label].append(expression)
 
-        first_transition = transitions[0]
-        symbol = create_amplitude_symbol(first_transition)
-        expression = sum(sequential_expressions)  # type: ignore[assignment]
-        self.__ingredients.amplitudes[symbol] = expression
-        return expression
+        topology_amplitudes: dict[str, sp.Expr] = {}
+        for graph_group_label, expressions in sequential_expressions.items():
+            expression = sum(expressions)  # type: ignore[assignment]
+            self.__ingredients.amplitudes[symbols[graph_group_label]] = expression
+            topology_amplitudes[graph_group_label] = expression
+        return topology_amplitudes
 
     def __formulate_sequential_decay(self, transition: StateTransition) -> sp.Expr:
         partial_decays: list[sp.Expr] = [
